@@ -12,6 +12,7 @@ import (
 	"sort"
 
 	"github.com/sourcegraph/zoekt"
+	"github.com/sourcegraph/zoekt/internal/verifhook"
 )
 
 // Merge files into a compound shard in dstDir. Merge returns tmpName and a
@@ -57,6 +58,7 @@ func builderWriteAll(fn string, ib *ShardBuilder) error {
 		return err
 	}
 
+	verifhook.FS("create", fn)
 	f, err := os.CreateTemp(dir, filepath.Base(fn)+".*.tmp")
 	if err != nil {
 		return err
@@ -69,6 +71,7 @@ func builderWriteAll(fn string, ib *ShardBuilder) error {
 	}
 
 	defer f.Close()
+	verifhook.FS("write", f.Name())
 	if err := ib.Write(f); err != nil {
 		return err
 	}
@@ -80,6 +83,7 @@ func builderWriteAll(fn string, ib *ShardBuilder) error {
 		return err
 	}
 
+	verifhook.FS("rename-tmp", f.Name(), fn)
 	if err := os.Rename(f.Name(), fn); err != nil {
 		return err
 	}
@@ -183,6 +187,7 @@ func Explode(dstDir string, inputShard string) error {
 		return err
 	}
 	for _, path := range paths {
+		verifhook.FS("remove", path)
 		err = os.Remove(path)
 		if err != nil {
 			return err
@@ -191,6 +196,7 @@ func Explode(dstDir string, inputShard string) error {
 
 	// best effort rename shards.
 	for tmpFn, dstFn := range exploded {
+		verifhook.FS("rename", tmpFn, dstFn)
 		if err := os.Rename(tmpFn, dstFn); err != nil {
 			log.Printf("explode: rename failed: %s", err)
 		}
